@@ -1,12 +1,143 @@
 -------------------------- MODULE Known_PackedSeq --------------------------
 (* Named deviation actions for the recorded known findings of property C09       *)
 (* (see /verif/known_findings.json).  A deviation is enabled only for the listed *)
-(* subject and only under its semantic trigger; the trace specification records  *)
-(* the ids taken on an accepted path in the variable kf.                         *)
+(* subject family and only under its semantic trigger, stated over               *)
+(*   - the input class recorded in the reset event (subj.d: length n, bit length *)
+(*     bw of max-min, ubw of the range of the 64-bit patterns, maxbits of the     *)
+(*     largest pattern, element size, block/sample widths, and for IntVec the     *)
+(*     order-compressed ranks urk of the 64-bit patterns), and                    *)
+(*   - the shape of the wrong result.                                             *)
+(* The trace specification records the ids taken in the variable kf.              *)
+(* All of them are written like the code they describe (sampling stride etc.).    *)
 EXTENDS PackedSeq, TLC
 
-KnownIds == {}
+KnownIds == {"C09-KF1", "C09-KF2", "C09-KF3", "C09-KF4", "C09-KF5", "C09-KF6", "C09-KF7",
+             "C09-KF8", "C09-KF9", "C09-KF10", "C09-KF11"}
 
-DevApplies(id, e, subj) == FALSE
-KnownDeviation(id, e, subj) == FALSE
+HasD(subj) == "d" \in DOMAIN subj
+Fam(subj, F) == subj.fam \in F
+
+(* ---- "reads deliver values of the right shape but wrong content; out-of-range reads are still refused" ---- *)
+WrongReadback(e) ==
+    /\ e.op = "readback" /\ built
+    /\ e.n = Len(seq) /\ Len(e.out) = Len(seq) /\ e.out # seq
+WrongReadback2(e) ==
+    /\ e.op = "readback2" /\ built
+    /\ Len(e.out) = (IF Len(seq) = 0 THEN 0 ELSE Len(seq) - 1)
+    /\ \E i \in 1..Len(e.out) : e.out[i] # <<seq[i], seq[i + 1]>>
+WrongBlocks(e) ==
+    /\ e.op = "readblocks" /\ built /\ e.bs > 0
+    /\ e.nb = NBlocks(e.bs) /\ Len(e.out) = e.nb * e.bs
+    /\ SubSeq(e.out, 1, Len(seq)) # seq
+(* an in-range single read that delivered a value (possibly a wrong one) *)
+InsideValue(p) ==
+    \/ p.k \in {"get", "fast_get"} /\ InRange(p.i, Len(seq)) /\ p.how = "value" /\ Len(p.r) = 1
+    \/ p.k = "get2" /\ InRange2(p.i, Len(seq)) /\ p.how = "value" /\ Len(p.r) = 1
+    \/ p.k = "get_block" /\ InRange(p.i, NBlocks(p.bs)) /\ p.ok /\ Len(p.out) >= p.bs
+WrongProbes(e, panicOK) ==
+    /\ e.op = "probes" /\ built
+    /\ \A k \in 1..Len(e.g) : ProbeOK(e.g[k], panicOK) \/ InsideValue(e.g[k])
+    /\ \E k \in 1..Len(e.g) : ~ProbeOK(e.g[k], panicOK)
+WrongValues(e, panicOK) == WrongReadback(e) \/ WrongReadback2(e) \/ WrongBlocks(e) \/ WrongProbes(e, panicOK)
+
+(* ======================= IntVec<T> (src/containers/specialized/int_vec.rs) ======================= *)
+N(subj) == subj.d.n
+(* from_slice: the "small dataset" analysis is used for <= 10000 elements or <= 16 KiB of input *)
+SmallPath(subj) == N(subj) <= 10000 \/ (N(subj) * subj.d.tbytes) \div 1024 <= 16
+(* fast_sorted_check / analyze_delta_bulk look at every Stride-th element only *)
+Stride(subj) == IF N(subj) \div 16 > 1 THEN N(subj) \div 16 ELSE 1
+USorted(subj) == \A i \in 1..(N(subj) - 1) : subj.d.urk[i] <= subj.d.urk[i + 1]
+SSorted(subj) == \A k \in 1..((N(subj) - 1) \div Stride(subj)) :
+                     subj.d.urk[(k - 1) * Stride(subj) + 1] <= subj.d.urk[k * Stride(subj) + 1]
+LastSample(subj) == ((N(subj) - 1) \div Stride(subj)) * Stride(subj)        \* 0-based index
+IsIntVec(subj) == HasD(subj) /\ Fam(subj, {"intvec"}) /\ N(subj) >= 4
+
+(* C09-KF1: fast_sorted_check samples every (len/16)-th element; an input that is sorted on the    *)
+(* samples but not sorted is delta-encoded with wrapped differences: wrong values.                  *)
+G1(e, subj) == IsIntVec(subj) /\ SmallPath(subj) /\ SSorted(subj) /\ ~USorted(subj) /\ WrongValues(e, FALSE)
+(* C09-KF2: analyze_delta_bulk derives the delta width from the sampled strides only; the elements  *)
+(* after the last sample are not covered: a large step there is truncated.  Everything up to the    *)
+(* last sampled element is still right.                                                             *)
+G2(e, subj) == /\ IsIntVec(subj) /\ SmallPath(subj) /\ USorted(subj)
+               /\ LastSample(subj) < N(subj) - 1
+               /\ WrongValues(e, FALSE)
+               /\ e.op = "readback" => \A i \in 1..(LastSample(subj) + 1) : e.out[i] = seq[i]
+(* C09-KF3: for > 1000 unsorted elements with a range wider than 16 bits the small-dataset analysis *)
+(* picks BlockBased with offset_width = min(width, 8) and sample_width = 4: values are truncated.   *)
+G3(e, subj) == /\ IsIntVec(subj) /\ SmallPath(subj) /\ ~SSorted(subj)
+               /\ N(subj) > 1000 /\ subj.d.ubw > 16
+               /\ WrongValues(e, FALSE)
+(* C09-KF4: read_bits loads 8 bytes only: a field of 58..63 bits that starts inside a byte loses    *)
+(* its top bits (MinMax strategy: <= 1000 elements on the small path, or the large path).            *)
+G4(e, subj) == /\ IsIntVec(subj) /\ subj.d.ubw \in 58..63
+               /\ \/ SmallPath(subj) /\ ~SSorted(subj) /\ N(subj) <= 1000
+                  \/ ~SmallPath(subj)
+               /\ WrongValues(e, FALSE)
+
+(* ======================= UintVecMin0 / ZipIntVec ======================= *)
+IsMin0(subj) == HasD(subj) /\ Fam(subj, {"uvm0", "zipint"})
+(* bits per element the container needs for this input *)
+NeedBits(subj) == IF subj.variant = "push" THEN subj.d.maxbits ELSE subj.d.bw
+(* C09-KF5: resize_with_uintbits computes mask = (1 << bits) - 1, which is 0 for bits = 64; every   *)
+(* set() then panics "Value .. exceeds max 0".  build_from_i32 reaches 64 bits by computing          *)
+(* max - min in i32 (overflow) for ranges of 2^31 or more.  Construction panics: no container.       *)
+G5(e, subj) == /\ IsMin0(subj)
+               /\ e.op = "panic" /\ e.in \in {"build", "push"}
+               /\ e.msgk = "Value N exceeds max N"
+               /\ \/ NeedBits(subj) = 64
+                  \/ subj.fam = "uvm0" /\ subj.variant = "i32" /\ subj.d.bw = 32
+(* C09-KF6: get / get2 assert bits <= 58 ("Use BigUintVecMin0", a type that does not exist): a      *)
+(* vector whose values need 59..63 bits can be built but not read.                                   *)
+G6(e, subj) == /\ IsMin0(subj)
+               /\ e.op = "panic" /\ e.in \in {"readback", "readback2"}
+               /\ e.msgk = "Use BigUintVecMinN for >N bits"
+               /\ NeedBits(subj) \in 59..64
+(* C09-KF7: ZipIntVec::build_from_* panics for a constant input at the type's maximum              *)
+(* (min_val + 1 wraps) and for inputs reaching usize::MAX (min_val + uintmask wraps in set()).       *)
+G7(e, subj) == /\ HasD(subj) /\ Fam(subj, {"zipint"})
+               /\ e.op = "panic" /\ e.in = "build"
+               /\ \/ e.msgk = "min_val must be less than max_val" /\ subj.d.bw = 0 /\ subj.d.n > 0
+                     /\ subj.d.maxbits = (IF subj.variant = "u32" THEN 32 ELSE 64)
+                  \/ e.msgk = "Value N exceeds maximum N" /\ subj.d.maxbits = 64
+(* C09-KF8: fast_get computes bits * idx without overflow check: a huge index wraps into the        *)
+(* buffer and a value comes back.  All other probes of the event are as the contract says.          *)
+FarValue(p) == p.k = "fast_get" /\ FarIdx(p.i) /\ p.bits > 0 /\ p.how = "value"
+G8(e, subj) == /\ IsMin0(subj)
+               /\ e.op = "probes" /\ built
+               /\ \A k \in 1..Len(e.g) : ProbeOK(e.g[k], TRUE) \/ FarValue(e.g[k])
+               /\ \E k \in 1..Len(e.g) : FarValue(e.g[k])
+(* C09-KF9: get2(usize::MAX): the bounds check idx + 1 < size wraps, the read is far outside the    *)
+(* buffer: the process dies (witness executed in a child process).                                   *)
+G9(e, subj) == /\ IsMin0(subj)
+               /\ e.op = "get2" /\ e.how = "crash" /\ e.i = <<65535, 65535, 65535, 65535>>
+
+(* ======================= SortedUintVec (src/blob_store/sorted_uint_vec.rs) ======================= *)
+IsSorted(subj) == HasD(subj) /\ Fam(subj, {"sorted"})
+(* C09-KF10: the block base value is masked to sample_width bits without a check: every value of a  *)
+(* block whose first value needs more bits comes back truncated.                                     *)
+G10(e, subj) == IsSorted(subj) /\ subj.d.maxbits > subj.d.sw /\ WrongValues(e, FALSE)
+(* C09-KF11: store_bits / extract_bits work in one 64-bit window: a sample_width of 58..63 bits      *)
+(* (accepted by validate()) loses bits and overwrites the neighbouring sample.                       *)
+G11(e, subj) == IsSorted(subj) /\ subj.d.sw \in 58..63 /\ WrongValues(e, FALSE)
+
+(* guard (state predicate) of each deviation.  In KF mode a deviation whose guard holds REPLACES    *)
+(* the contract action for that event.                                                               *)
+DevApplies(id, e, subj) ==
+    \/ id = "C09-KF1" /\ G1(e, subj)
+    \/ id = "C09-KF2" /\ G2(e, subj)
+    \/ id = "C09-KF3" /\ G3(e, subj)
+    \/ id = "C09-KF4" /\ G4(e, subj)
+    \/ id = "C09-KF5" /\ G5(e, subj)
+    \/ id = "C09-KF6" /\ G6(e, subj)
+    \/ id = "C09-KF7" /\ G7(e, subj)
+    \/ id = "C09-KF8" /\ G8(e, subj)
+    \/ id = "C09-KF9" /\ G9(e, subj)
+    \/ id = "C09-KF10" /\ G10(e, subj)
+    \/ id = "C09-KF11" /\ G11(e, subj)
+(* effect: a panic during construction leaves no container; everything else changes nothing *)
+KnownDeviation(id, e, subj) ==
+    /\ DevApplies(id, e, subj)
+    /\ IF e.op = "panic" /\ e.in = "build"
+       THEN seq' = <<>> /\ built' = FALSE
+       ELSE UNCHANGED pvars
 =============================================================================
